@@ -68,6 +68,7 @@ type Ctx struct {
 	shardN   int
 	mu       sync.Mutex
 	maxViol  int
+	perKey   map[string]int
 	start    time.Time
 	out      string
 }
@@ -81,6 +82,8 @@ type W struct {
 	nontriv int64
 	classes map[string]int64
 	viol    []Violation
+	nviol   int64
+	vkeys   map[string]int
 	samples []interface{}
 }
 
@@ -124,9 +127,6 @@ func (c *Ctx) Finish() {
 		}
 		return r.Violations[i].Index < r.Violations[j].Index
 	})
-	if len(r.Violations) > c.maxViol {
-		r.Violations = r.Violations[:c.maxViol]
-	}
 	b, _ := json.MarshalIndent(r, "", " ")
 	if c.out != "" {
 		_ = os.WriteFile(c.out, b, 0o644)
@@ -189,11 +189,23 @@ func (c *Ctx) merge(w *W) {
 	for k, v := range w.classes {
 		r.Classes[k] += v
 	}
-	r.NViolations += int64(len(w.viol))
-	r.Violations = append(r.Violations, w.viol...)
-	if len(r.Violations) > 4*c.maxViol {
-		sort.SliceStable(r.Violations, func(i, j int) bool { return r.Violations[i].Index < r.Violations[j].Index })
-		r.Violations = r.Violations[:c.maxViol]
+	r.NViolations += w.nviol
+	// keep a few representatives per distinct key (input class), lowest indices first
+	for _, v := range w.viol {
+		if c.perKey == nil {
+			c.perKey = map[string]int{}
+		}
+		if c.perKey[v.Key] < 3 && len(r.Violations) < 200 {
+			c.perKey[v.Key]++
+			r.Violations = append(r.Violations, v)
+		} else {
+			for i := range r.Violations {
+				if r.Violations[i].Key == v.Key && r.Violations[i].Sub == v.Sub && r.Violations[i].Index > v.Index {
+					r.Violations[i] = v
+					break
+				}
+			}
+		}
 	}
 	for _, s := range w.samples {
 		if len(r.Samples) < 24 {
@@ -330,10 +342,13 @@ func (w *W) Sample(s interface{}) {
 
 // Fail records a violation of the property on the current case.
 func (w *W) Fail(key, desc string, cas interface{}) {
-	if len(w.viol) < w.c.maxViol {
+	w.nviol++
+	if w.vkeys == nil {
+		w.vkeys = map[string]int{}
+	}
+	if w.vkeys[key] < 3 && len(w.viol) < 200 {
+		w.vkeys[key]++
 		w.viol = append(w.viol, Violation{Sub: w.sub, Index: w.idx, Key: key, Desc: desc, Case: cas, Config: w.c.Config})
-	} else {
-		w.viol = append(w.viol[:w.c.maxViol-1], Violation{Sub: w.sub, Index: w.idx, Key: key, Desc: "(more)", Config: w.c.Config})
 	}
 }
 
